@@ -1714,6 +1714,8 @@ def _raised_origin(p, f: Func, e, depth=0) -> Tuple[str, str]:
         return 'unknown', 'chain of locals too long'
     if isinstance(e, ast.Call):
         return 'fresh', 'built by a call evaluated for this raise'
+    if isinstance(e, ast.Constant):
+        return 'fresh', 'a constant (not an exception instance: the raise itself fails with a new TypeError)'
     if isinstance(e, ast.IfExp):
         rs = [_raised_origin(p, f, x, depth + 1) for x in (e.body, e.orelse)]
         for kind in ('shared', 'unknown'):
